@@ -260,5 +260,34 @@ Definition rv_ok (g : graph) (ar : list entry) (v : rv) : bool :=
 
 Definition values_ok (g : graph) (ar : list entry) (vs : list rv) : bool := forallb (rv_ok g ar) vs.
 
-Definition crate_ok (g : graph) (ar : list entry) (vs : list rv) : bool :=
-  all_ids g && nodupb (ids g) && refs_ok g && files_ok g ar && values_ok g ar vs.
+(* ---------------------------------------------------------------- step level: what a step's action lists as result
+   A step value says: the (non-scattered) workflow step whose HowToStep entity is [sv_step] produced [sv_val]. *)
+Record sv := SV { sv_step : string; sv_val : value }.
+
+(* c is the ControlAction orchestrating step s *)
+Definition is_control (c : json) (s : string) : bool :=
+  has_type c "ControlAction" &&&
+  match get c "instrument" with
+  | Some j => match ref_of j with Some i => String.eqb i s | None => false end
+  | None => false
+  end.
+
+(* action a lists at least one result and every result it lists carries the value *)
+Definition results_ok (g : graph) (ar : list entry) (a : json) (v : value) : bool :=
+  match prop_refs a "result" with
+  | [] => false
+  | rs => forallb (fun x => existsb (fun e => id_is e x &&& val_ok g ar e x v) g) rs
+  end.
+
+Definition sv_ok (g : graph) (ar : list entry) (v : sv) : bool :=
+  existsb (fun c => is_control c (sv_step v)) g &&&
+  forallb (fun c =>
+    if is_control c (sv_step v)
+    then forallb (fun aid => forallb (fun a => if id_is a aid then results_ok g ar a (sv_val v) else true) g)
+                 (prop_refs c "object")
+    else true) g.
+
+Definition steps_ok (g : graph) (ar : list entry) (ss : list sv) : bool := forallb (sv_ok g ar) ss.
+
+Definition crate_ok (g : graph) (ar : list entry) (vs : list rv) (ss : list sv) : bool :=
+  all_ids g && nodupb (ids g) && refs_ok g && files_ok g ar && values_ok g ar vs && steps_ok g ar ss.
